@@ -494,10 +494,18 @@ def task_rng(ctx):
         for key in ("step_done", "steps", "reuse_P", "timestep", "Temp", "seqm_parameters", "remove_com", "output", "rng", "molecules"):
             ctx.prove("checkpoint-has[%s]" % key, E.const(key in ck))
         ctx.prove("step_done-recorded", S(ck["step_done"]) == 4)
-    src = inspect.getsource(M.Molecular_Dynamics_Basic.run_from_checkpoint)
-    i1, i2 = src.find("_restore_rng(ckpt)"), src.find("md.run(")
-    ctx.prove("resume: RNG restored before the run starts", E.const(0 < i1 < i2))
-    ctx.prove("resume: no seed passed to run (would overwrite the restored state)", E.const("seed" not in src[i2: i2 + 200]))
+    import ast, textwrap
+
+    rtree = ast.parse(textwrap.dedent(inspect.getsource(M.Molecular_Dynamics_Basic.run_from_checkpoint)))
+    calls = [n for n in ast.walk(rtree) if isinstance(n, ast.Call)]
+    restore = [n for n in calls if ast.unparse(n.func).split(".")[-1] == "_restore_rng"]
+    runs = [n for n in calls if isinstance(n.func, ast.Attribute) and n.func.attr == "run"]
+    if not restore or not runs:
+        ctx.error("resume.anchor", "run_from_checkpoint: calls of _restore_rng / .run not found (contract anchor moved)")
+    else:
+        pos = lambda n: (n.lineno, n.col_offset)
+        ctx.prove("resume: RNG restored before the run starts", E.const(max(pos(n) for n in restore) < min(pos(n) for n in runs)))
+        ctx.prove("resume: no seed passed to run (would overwrite the restored state)", E.const(all(k.arg != "seed" for n in runs for k in n.keywords)))
     ctx.assume_note("A4: get_rng_state/set_rng_state round-trip the generator state")
 
 
